@@ -166,6 +166,32 @@ def lean_build(extra_targets=()):
         lock.close()
 
 
+def lean_recheck():
+    """thorough tier: `leanchecker` (the toolchain's independent re-checker) replays the compiled library; cached by source hash.
+    -> (ok, message)"""
+    os.makedirs(os.path.join(LEAN_DIR, ".lake"), exist_ok=True)
+    lock = open(os.path.join(LEAN_DIR, ".lake", "verif.recheck.lock"), "w")
+    fcntl.flock(lock, fcntl.LOCK_EX)
+    try:
+        h = lean_source_hash()
+        stamp = os.path.join(LEAN_DIR, ".lake", "leanchecker.stamp")
+        if os.path.exists(stamp) and open(stamp).read().strip() == h:
+            return True, "leanchecker: library re-checked (cached, %s)" % h[:12]
+        t0 = time.time()
+        try:
+            p = subprocess.run(["lake", "env", "leanchecker", "ZI"], cwd=LEAN_DIR, capture_output=True, text=True, timeout=1800)
+        except (OSError, subprocess.TimeoutExpired) as e:
+            return False, "leanchecker could not be run: %s" % e
+        if p.returncode != 0:
+            return False, "leanchecker rejects the compiled library: " + (p.stdout + p.stderr)[-1500:]
+        with open(stamp, "w") as fh:
+            fh.write(h)
+        return True, "leanchecker: library re-checked in %.0fs" % (time.time() - t0)
+    finally:
+        fcntl.flock(lock, fcntl.LOCK_UN)
+        lock.close()
+
+
 def audit_table():
     """{theorem name: [axioms]} for every theorem constant under namespace ZI"""
     tab = {}
@@ -388,6 +414,12 @@ class Check:
         self.theorems = list(theorems)
         self.lean = lean_obligations(theorems)
         self.stated_not_proved = list(stated_not_proved)
+        if self.tier == "thorough" and self.lean.get("ok"):
+            ok, msg = lean_recheck()
+            self.notes.append(msg)
+            if not ok:
+                self.lean["ok"] = False
+                self.lean["problems"].append(msg)
         return self.lean
 
     def violation(self, what, replay, sig=None, failing_input=True):
